@@ -12,14 +12,17 @@ def make(oracle_cls, *, quick, thorough, profile, cfg_kwargs=None, init_kwargs=N
     def run_shard(ctx):
         n, steps = quick if ctx.tier == "quick" else thorough
         ck, ik = dict(cfg_kwargs or {}), dict(init_kwargs or {})
-        if ctx.tier == "thorough":
-            # a third of the thorough budget goes to larger structures (more nodes, more frames)
-            big = ctx.share(n // 3)
-            machine.run_walks(ctx, oracle_cls, n_walks=big, steps=steps, profile=profile,
-                              cfg_kwargs={**ck, "max_frames": 9}, init_kwargs={**ik, "max_nodes": 16},
+        # part of the budget goes to larger structures and longer histories (more nodes, more
+        # frames, larger frames, twice the steps): a third in the thorough tier, an eighth in quick
+        part = n // 3 if ctx.tier == "thorough" else n // 8
+        if part:
+            machine.run_walks(ctx, oracle_cls, n_walks=ctx.share(part), steps=steps * 2, profile=profile,
+                              cfg_kwargs={**ck, "max_frames": 10, "big_frames": True},
+                              init_kwargs={**ik, "max_nodes": 20},
                               refusal_bias=refusal_bias, oracle_kwargs=oracle_kwargs)
-            n = n - n // 3
+            n = n - part
             ctx.seed = (ctx.seed * 2654435761 + 1) % 2**32
+            ctx.col.event("big_walks", 0)
         machine.run_walks(ctx, oracle_cls, n_walks=ctx.share(n), steps=steps, profile=profile,
                           cfg_kwargs=ck, init_kwargs=ik,
                           refusal_bias=refusal_bias, oracle_kwargs=oracle_kwargs)
